@@ -82,6 +82,24 @@ Inductive treach (cfg : config) (c0 : conf) : conf -> Prop :=
 | TR_init : treach cfg c0 c0
 | TR_step : forall c c', treach cfg c0 c -> tstep cfg c c' -> treach cfg c0 c'.
 
+(* inversion of one step with stable names *)
+Ltac inv_tstep T :=
+  inversion T as
+    [ s f rest fs s' Hh Hsf
+    | s t r stk s' Hh Hrd Hth
+    | s e s1 Hh Hrd Hro Htm Hpop
+    | s Hh Hrd Hro Htm
+    | s ph Hh Hrd Hro Hnw Hg
+    | s Hh Hrd Hro Hnw Hph Htm
+    | s pid t0 Hh Hrd Hro
+    | s Hh Hrd Hro
+    | s e q Hh Hrd Hro Hnw Hph Hq
+    | s t Hh Hrd Hro Hnw Hph Hcl Hq
+    | s stk
+    | s pid Hh Hrd Hro Hph
+    | s pid fs s' Hh Hrd Hro Hph Hfs
+    | s Hh Hrd Hro Hph ]; subst.
+
 (* ------------------------------------------------------------------------- *)
 (** * Frame facts: what the building blocks leave alone *)
 
@@ -698,4 +716,436 @@ Proof.
            eapply same_ctl_trans; [exact C1|]. eapply same_ctl_trans; [exact C2 | exact C3].
 Qed.
 
+
+(* ---- immediate return once halted ---- *)
+Lemma run_ready_halted : forall fuel s, halted s = true -> run_ready cfg fuel s = s.
+Proof. intros fuel s H. destruct fuel; simpl; destruct (s_ready s); try reflexivity; rewrite H; reflexivity. Qed.
+Lemma advance_micro_tick_halted : forall fuel s, halted s = true -> advance_micro_tick cfg fuel s = s.
+Proof. intros fuel s H. destruct fuel; simpl; rewrite H; reflexivity. Qed.
+Lemma phase_loop_halted : forall fuel s, halted s = true -> phase_loop cfg fuel s = s.
+Proof. intros fuel s H. destruct fuel; simpl; rewrite H; reflexivity. Qed.
+Lemma time_step_loop_halted : forall fuel s, halted s = true -> time_step_loop cfg fuel s = s.
+Proof. intros fuel s H. destruct fuel; simpl; rewrite H; reflexivity. Qed.
+Lemma commit_resume_halted : forall fuel l s, halted s = true -> commit_resume cfg fuel l s = s.
+Proof. intros fuel l s H. destruct l; simpl; [reflexivity | rewrite H; reflexivity]. Qed.
+Lemma advance_loop_halted : forall fuel t s, halted s = true -> advance_loop cfg fuel t s = s.
+Proof. intros fuel t s H. destruct fuel; simpl; rewrite H; reflexivity. Qed.
+Lemma start_all_halted : forall fuel fb l s, halted s = true -> start_all cfg fuel fb l s = s.
+Proof. intros fuel fb l s H. destruct l; simpl; [reflexivity | rewrite H; reflexivity]. Qed.
+
+Hypothesis Hc0 : s_readonly (fst c0) = false.
+
+(* while the state is being committed (read-only mode) no pin write is pending *)
+Lemma reach_ro_nw : forall c, reach c -> s_readonly (fst c) = true ->
+  halted (fst c) = true \/ nwb (s_log (fst c)) = true.
+Proof.
+  induction 1 as [|c c' R IH T]; intro Ro; [rewrite Hc0 in Ro; discriminate|].
+  inv_tstep T; cbn [fst snd] in *.
+  - (* frame *)
+    pose proof (step_frame_ctl cfg f s) as C. rewrite Hsf in C. cbn [snd] in C. destruct C as (_ & _ & _ & C4).
+    assert (Ro0 : s_readonly s = true) by congruence.
+    destruct (IH Ro0) as [Hx|Hn]; [congruence|].
+    destruct (frame_step_log cfg f s s' (step_frame_spec _ _ _ _ _ Hsf) Hh) as [Hx|(_ & new & L & F)]; [left; exact Hx|].
+    right. rewrite L. apply nwb_app_nowrite; [eapply proc_entries_ro_nowrite; eassumption | exact Hn].
+  - (* task *)
+    pose proof (task_head_ctl t (set_ready r s)) as C. rewrite Hth in C. cbn [snd] in C. destruct C as (_ & _ & _ & C4).
+    assert (Ro0 : s_readonly s = true) by (rewrite <- Ro, C4; reflexivity).
+    destruct (IH Ro0) as [Hx|Hn]; [congruence|].
+    destruct (task_head_log t (set_ready r s) stk s' Hth Hh) as (_ & new & L & F).
+    right. rewrite L. apply nwb_app_nowrite; [|exact Hn].
+    eapply (proc_entries_ro_nowrite (set_ready r s)); [exact Ro0 | exact F].
+  - exfalso. destruct (pop_event_top _ _ _ Hpop) as (((_ & _ & _ & C4) & _) & _).
+    destruct (event_head_ctl cfg e s1) as (_ & _ & _ & D4). congruence.
+  - exfalso. destruct (micro_end_fields s) as (_ & _ & M & _). congruence.
+  - exfalso. destruct (phase_begin_fields ph s) as (_ & _ & M & _). congruence.
+  - right. exact Hnw.
+  - destruct (IH Hro) as [Hx|Hn]; [congruence | right; exact Hn].
+  - discriminate.
+  - exfalso. cbn in Ro. congruence.
+  - exfalso. cbn in Ro. congruence.
+  - left. apply halted_set_oof.
+  - exfalso. cbn in Ro. congruence.
+  - exfalso. unfold fiber_start in Hfs.
+    pose proof (fiber_continue_ctl pid (log_proc pid AStart s)) as C. rewrite Hfs in C. cbn [snd] in C.
+    destruct C as (_ & _ & _ & C4). destruct (log_proc_ctl pid AStart s) as (_ & _ & _ & D4). congruence.
+  - exfalso. destruct (reevaluate_top s) as ((_ & _ & _ & C4) & _). congruence.
+Qed.
+
+Definition calm (ro : bool) (s : state) : Prop := s_ready s = [] /\ s_readonly s = ro.
+
+Lemma advance_micro_tick_reach : forall fuel s,
+  reach (s, []) -> (halted s = true \/ calm false s) ->
+  exists stk', reach (advance_micro_tick cfg fuel s, stk') /\ settled (advance_micro_tick cfg fuel s, stk')
+    /\ (halted (advance_micro_tick cfg fuel s) = true
+        \/ (calm false (advance_micro_tick cfg fuel s) /\ top_matches false true (advance_micro_tick cfg fuel s) = false))
+    /\ same_ctl s (advance_micro_tick cfg fuel s).
+Proof.
+  induction fuel as [|n IH]; intros s R Pre; simpl.
+  - destruct (halted s) eqn:H.
+    + exists []. split; [exact R|]. split; [left; exact H|]. split; [left; exact H | apply same_ctl_refl].
+    + destruct (top_matches false true s) eqn:Tm.
+      * exists []. split; [eapply TR_step; [exact R | apply TS_oof]|]. split; [left; apply halted_set_oof|].
+        split; [left; apply halted_set_oof | repeat split].
+      * exists []. split; [exact R|]. split; [right; reflexivity|]. destruct Pre as [Hh|Hc]; [congruence|].
+        split; [right; split; assumption | apply same_ctl_refl].
+  - destruct (halted s) eqn:H.
+    + exists []. split; [exact R|]. split; [left; exact H|]. split; [left; exact H | apply same_ctl_refl].
+    + destruct Pre as [Hh|[Hr Hro]]; [congruence|].
+      destruct (top_matches false true s) eqn:Tm.
+      2:{ exists []. split; [exact R|]. split; [right; reflexivity|]. split; [right; split; [split|]; assumption | apply same_ctl_refl]. }
+      destruct (pop_event s) as [[e s1]|] eqn:P.
+      2:{ exfalso. eapply pop_event_nonempty; [eapply top_matches_nonempty; exact Tm | exact P]. }
+      destruct (pop_event_top _ _ _ P) as ((Cp & Ep & Op & Rp) & Lp).
+      assert (R1 : reach (event_head cfg e s1, [])) by (eapply TR_step; [exact R | apply TS_event; assumption]).
+      assert (C1 : same_ctl s (event_head cfg e s1)) by (eapply same_ctl_trans; [exact Cp | apply event_head_ctl]).
+      unfold handle_event.
+      destruct (e_type e) eqn:Ty.
+      * (* trigger *)
+        assert (Pre1 : halted (event_head cfg e s1) = true \/ calm false (event_head cfg e s1)).
+        { right. split; [rewrite event_head_ready by congruence; congruence | destruct C1 as (_ & _ & _ & C4); congruence]. }
+        destruct (IH _ R1 Pre1) as (stk' & R2 & S2 & Q2 & C2). exists stk'.
+        split; [exact R2|]. split; [exact S2|]. split; [exact Q2|]. eapply same_ctl_trans; eassumption.
+      * (* resume *)
+        destruct (run_ready_reach (S n) _ R1) as (stk1 & R2 & S2 & Q2 & C2).
+        set (s2 := run_ready cfg (S n) (event_head cfg e s1)) in *.
+        assert (C12 : same_ctl s s2) by (eapply same_ctl_trans; eassumption).
+        destruct S2 as [Hh|Hs]; [simpl in Hh | simpl in Hs].
+        -- rewrite advance_micro_tick_halted by exact Hh. exists stk1. split; [exact R2|].
+           split; [left; exact Hh|]. split; [left; exact Hh | exact C12].
+        -- subst stk1.
+           assert (Pre2 : halted s2 = true \/ calm false s2).
+           { destruct Q2 as [Hh|Hq]; [left; exact Hh | right; split; [exact Hq | destruct C12 as (_ & _ & _ & C4); congruence]]. }
+           destruct (IH _ R2 Pre2) as (stk' & R3 & S3 & Q3 & C3). exists stk'.
+           split; [exact R3|]. split; [exact S3|]. split; [exact Q3|]. eapply same_ctl_trans; eassumption.
+      * (* value change *)
+        assert (Pre1 : halted (event_head cfg e s1) = true \/ calm false (event_head cfg e s1)).
+        { right. split; [rewrite event_head_ready by congruence; congruence | destruct C1 as (_ & _ & _ & C4); congruence]. }
+        destruct (IH _ R1 Pre1) as (stk' & R2 & S2 & Q2 & C2). exists stk'.
+        split; [exact R2|]. split; [exact S2|]. split; [exact Q2|]. eapply same_ctl_trans; eassumption.
+      * assert (Pre1 : halted (event_head cfg e s1) = true \/ calm false (event_head cfg e s1)).
+        { right. split; [rewrite event_head_ready by congruence; congruence | destruct C1 as (_ & _ & _ & C4); congruence]. }
+        destruct (IH _ R1 Pre1) as (stk' & R2 & S2 & Q2 & C2). exists stk'.
+        split; [exact R2|]. split; [exact S2|]. split; [exact Q2|]. eapply same_ctl_trans; eassumption.
+Qed.
+
+Lemma phase_loop_reach : forall fuel s,
+  reach (s, []) -> (halted s = true \/ calm false s) ->
+  exists stk', reach (phase_loop cfg fuel s, stk') /\ settled (phase_loop cfg fuel s, stk')
+    /\ (halted (phase_loop cfg fuel s) = true
+        \/ (calm false (phase_loop cfg fuel s) /\ top_matches false false (phase_loop cfg fuel s) = false
+            /\ s_phase (phase_loop cfg fuel s) = s_phase s /\ s_now (phase_loop cfg fuel s) = s_now s
+            /\ (nwb (s_log s) = true -> nwb (s_log (phase_loop cfg fuel s)) = true))).
+Proof.
+  induction fuel as [|n IH]; intros s R Pre; simpl.
+  - destruct (halted s) eqn:H.
+    + exists []. split; [exact R|]. split; [left; exact H | left; exact H].
+    + destruct (top_matches false false s) eqn:Tm.
+      * exists []. split; [eapply TR_step; [exact R | apply TS_oof]|]. split; left; apply halted_set_oof.
+      * exists []. split; [exact R|]. split; [right; reflexivity|]. destruct Pre as [Hh|Hc]; [congruence|].
+        right. repeat split; try apply Hc; auto.
+  - destruct (halted s) eqn:H.
+    + exists []. split; [exact R|]. split; [left; exact H | left; exact H].
+    + destruct (top_matches false false s) eqn:Tm.
+      2:{ exists []. split; [exact R|]. split; [right; reflexivity|]. destruct Pre as [Hh|Hc]; [congruence|].
+          right. repeat split; try apply Hc; auto. }
+      assert (Pre' : halted s = true \/ calm false s) by (destruct Pre as [Hx|Hx]; [discriminate | right; exact Hx]).
+      destruct (advance_micro_tick_reach (S n) s R Pre') as (stk1 & R1 & S1 & Q1 & C1).
+      set (s1 := advance_micro_tick cfg (S n) s) in *.
+      destruct (halted s1) eqn:H1.
+      * exists stk1. split; [exact R1|]. split; [left; exact H1 | left; exact H1].
+      * destruct S1 as [Hh|Hs]; [simpl in Hh; congruence | simpl in Hs; subst stk1].
+        destruct Q1 as [Hh|((Hr1 & Hro1) & Tm1)]; [congruence|].
+        assert (R2 : reach (micro_end s1, [])) by (eapply TR_step; [exact R1 | apply TS_micro_end; assumption]).
+        destruct (micro_end_fields s1) as (M1 & M2 & M3 & M4 & M5 & M6).
+        assert (Pre2 : halted (micro_end s1) = true \/ calm false (micro_end s1)).
+        { right. split; congruence. }
+        destruct (IH _ R2 Pre2) as (stk' & R3 & S3 & Q3). exists stk'. split; [exact R3|]. split; [exact S3|].
+        destruct Q3 as [Hh|(Hc & Tm3 & Ph3 & Nw3 & Nb3)]; [left; exact Hh|].
+        right. destruct C1 as (C11 & C12 & _ & _). repeat split; try apply Hc; try assumption; try congruence.
+        intros _. apply Nb3. apply micro_end_nwb. apply halted_false_err. exact H1.
+Qed.
+
+Definition phase_guard (ph : phase) (s : state) : Prop :=
+  match ph with
+  | BEFORE => top_matches true false s = true
+  | DURING => s_phase s = BEFORE /\ top_matches false false s = false
+  | AFTER => s_phase s = DURING /\ top_matches false false s = false
+  end.
+
+Lemma phase_pass_reach : forall fuel ph s,
+  reach (s, []) -> (halted s = true \/ (calm false s /\ nwb (s_log s) = true /\ phase_guard ph s)) ->
+  exists stk', reach (phase_pass cfg fuel ph s, stk') /\ settled (phase_pass cfg fuel ph s, stk')
+    /\ (halted (phase_pass cfg fuel ph s) = true
+        \/ (calm false (phase_pass cfg fuel ph s) /\ nwb (s_log (phase_pass cfg fuel ph s)) = true
+            /\ s_phase (phase_pass cfg fuel ph s) = ph /\ top_matches false false (phase_pass cfg fuel ph s) = false
+            /\ s_now (phase_pass cfg fuel ph s) = s_now s)).
+Proof.
+  intros fuel ph s R Pre. unfold phase_pass.
+  destruct (halted s) eqn:H.
+  - exists []. split; [exact R|]. split; [left; exact H | left; exact H].
+  - destruct Pre as [Hh|((Hr & Hro) & Nw & G)]; [congruence|].
+    assert (R1 : reach (phase_begin ph s, [])).
+    { eapply TR_step; [exact R|]. apply TS_phase; try assumption. destruct ph; exact G. }
+    destruct (phase_begin_fields ph s) as (F1 & F2 & F3 & F4 & F5 & F6 & F7 & F8).
+    assert (Pre1 : halted (phase_begin ph s) = true \/ calm false (phase_begin ph s)) by (right; split; congruence).
+    destruct (phase_loop_reach fuel _ R1 Pre1) as (stk' & R2 & S2 & Q2).
+    exists stk'. split; [exact R2|]. split; [exact S2|].
+    destruct Q2 as [Hh|(Hc & Tm & Ph & Nw2 & Nb)]; [left; exact Hh|].
+    right. repeat split; try apply Hc; try assumption; try congruence. apply Nb. congruence.
+Qed.
+
+Lemma time_step_loop_reach : forall fuel s,
+  reach (s, []) -> (halted s = true \/ (calm false s /\ nwb (s_log s) = true /\ s_phase s = AFTER)) ->
+  exists stk', reach (time_step_loop cfg fuel s, stk') /\ settled (time_step_loop cfg fuel s, stk')
+    /\ (halted (time_step_loop cfg fuel s) = true
+        \/ (calm false (time_step_loop cfg fuel s) /\ nwb (s_log (time_step_loop cfg fuel s)) = true
+            /\ s_phase (time_step_loop cfg fuel s) = AFTER /\ top_matches true false (time_step_loop cfg fuel s) = false
+            /\ s_now (time_step_loop cfg fuel s) = s_now s)).
+Proof.
+  induction fuel as [|n IH]; intros s R Pre; simpl.
+  - destruct (halted s) eqn:H.
+    + exists []. split; [exact R|]. split; [left; exact H | left; exact H].
+    + destruct (top_matches true false s) eqn:Tm.
+      * exists []. split; [eapply TR_step; [exact R | apply TS_oof]|]. split; left; apply halted_set_oof.
+      * exists []. split; [exact R|]. split; [right; reflexivity|]. destruct Pre as [Hh|(Hc & Nw & Ph)]; [congruence|].
+        right. repeat split; try apply Hc; auto.
+  - destruct (halted s) eqn:H.
+    + exists []. split; [exact R|]. split; [left; exact H | left; exact H].
+    + destruct (top_matches true false s) eqn:Tm.
+      2:{ exists []. split; [exact R|]. split; [right; reflexivity|]. destruct Pre as [Hh|(Hc & Nw & Ph)]; [congruence|].
+          right. repeat split; try apply Hc; auto. }
+      destruct Pre as [Hh|(Hc & Nw & Ph)]; [congruence|].
+      (* BEFORE *)
+      destruct (phase_pass_reach (S n) BEFORE s R) as (k1 & R1 & S1 & Q1); [right; repeat split; try apply Hc; assumption|].
+      set (s1 := phase_pass cfg (S n) BEFORE s) in *.
+      assert (Stop : forall x k, reach (x, k) -> halted x = true ->
+                exists stk', reach (time_step_loop cfg n x, stk') /\ settled (time_step_loop cfg n x, stk')
+                  /\ (halted (time_step_loop cfg n x) = true \/ False)).
+      { intros x k Rx Hx. rewrite time_step_loop_halted by exact Hx. exists k. split; [exact Rx|]. split; left; exact Hx. }
+      destruct Q1 as [H1|(Hc1 & Nw1 & Ph1 & Tm1 & Now1)].
+      { unfold phase_pass at 1 2 3. fold s1. rewrite H1. unfold phase_pass at 1 2 3. rewrite H1.
+        destruct (Stop s1 k1 R1 H1) as (k' & Rk & Sk & [Hk|[]]). exists k'. split; [exact Rk|]. split; [exact Sk | left; exact Hk]. }
+      destruct S1 as [Hh|Hs]; [simpl in Hh | simpl in Hs; subst k1].
+      { unfold phase_pass at 1 2 3. fold s1. rewrite Hh. unfold phase_pass at 1 2 3. rewrite Hh.
+        destruct (Stop s1 k1 R1 Hh) as (k' & Rk & Sk & [Hk|[]]). exists k'. split; [exact Rk|]. split; [exact Sk | left; exact Hk]. }
+      (* DURING *)
+      destruct (phase_pass_reach (S n) DURING s1 R1) as (k2 & R2 & S2 & Q2);
+        [right; repeat split; try apply Hc1; assumption|].
+      set (s2 := phase_pass cfg (S n) DURING s1) in *.
+      destruct Q2 as [H2|(Hc2 & Nw2 & Ph2 & Tm2 & Now2)].
+      { unfold phase_pass at 1. fold s2. rewrite H2.
+        destruct (Stop s2 k2 R2 H2) as (k' & Rk & Sk & [Hk|[]]). exists k'. split; [exact Rk|]. split; [exact Sk | left; exact Hk]. }
+      destruct S2 as [Hh|Hs]; [simpl in Hh | simpl in Hs; subst k2].
+      { unfold phase_pass at 1. fold s2. rewrite Hh.
+        destruct (Stop s2 k2 R2 Hh) as (k' & Rk & Sk & [Hk|[]]). exists k'. split; [exact Rk|]. split; [exact Sk | left; exact Hk]. }
+      (* AFTER *)
+      destruct (phase_pass_reach (S n) AFTER s2 R2) as (k3 & R3 & S3 & Q3);
+        [right; repeat split; try apply Hc2; assumption|].
+      set (s3 := phase_pass cfg (S n) AFTER s2) in *.
+      destruct Q3 as [H3|(Hc3 & Nw3 & Ph3 & Tm3 & Now3)].
+      { destruct (Stop s3 k3 R3 H3) as (k' & Rk & Sk & [Hk|[]]). exists k'. split; [exact Rk|]. split; [exact Sk | left; exact Hk]. }
+      destruct S3 as [Hh|Hs]; [simpl in Hh | simpl in Hs; subst k3].
+      { destruct (Stop s3 k3 R3 Hh) as (k' & Rk & Sk & [Hk|[]]). exists k'. split; [exact Rk|]. split; [exact Sk | left; exact Hk]. }
+      destruct (IH s3 R3) as (k' & Rk & Sk & Qk); [right; repeat split; try apply Hc3; assumption|].
+      exists k'. split; [exact Rk|]. split; [exact Sk|].
+      destruct Qk as [Hk|(Hck & Nwk & Phk & Tmk & Nowk)]; [left; exact Hk|].
+      right. repeat split; try apply Hck; try assumption. congruence.
+Qed.
+
+Lemma nwb_commit_entry : forall t a b c d l, nwb (LCommit t a b c d :: l) = nwb l.
+Proof. reflexivity. Qed.
+
+Lemma commit_resume_reach : forall fuel waiting s,
+  reach (s, []) -> (halted s = true \/ (calm true s /\ nwb (s_log s) = true)) ->
+  exists stk', reach (commit_resume cfg fuel waiting s, stk') /\ settled (commit_resume cfg fuel waiting s, stk')
+    /\ (halted (commit_resume cfg fuel waiting s) = true
+        \/ (calm true (commit_resume cfg fuel waiting s) /\ nwb (s_log (commit_resume cfg fuel waiting s)) = true
+            /\ same_ctl s (commit_resume cfg fuel waiting s))).
+Proof.
+  induction waiting as [|p r IH]; intros s R Pre; simpl.
+  - exists []. split; [exact R|]. split; [right; reflexivity|].
+    destruct Pre as [Hh|(Hc & Nw)]; [left; exact Hh | right; split; [exact Hc | split; [exact Nw | apply same_ctl_refl]]].
+  - destruct (halted s) eqn:H.
+    + exists []. split; [exact R|]. split; [left; exact H | left; exact H].
+    + destruct Pre as [Hh|((Hr & Hro) & Nw)]; [congruence|].
+      unfold resume_now.
+      assert (R1 : reach (enqueue (TWake (fst p) WkStable (ghost0 (snd p))) s, []))
+        by (eapply TR_step; [exact R | apply TS_enq_stable; assumption]).
+      destruct (run_ready_reach fuel _ R1) as (k1 & R2 & S2 & Q2 & C2).
+      set (s2 := run_ready cfg fuel (enqueue (TWake (fst p) WkStable (ghost0 (snd p))) s)) in *.
+      assert (C02 : same_ctl s s2) by (eapply same_ctl_trans; [apply enqueue_ctl | exact C2]).
+      destruct S2 as [Hh|Hs]; [simpl in Hh | simpl in Hs; subst k1].
+      * rewrite commit_resume_halted by exact Hh. exists k1. split; [exact R2|]. split; left; exact Hh.
+      * assert (Pre2 : halted s2 = true \/ (calm true s2 /\ nwb (s_log s2) = true)).
+        { destruct Q2 as [Hh|Hq]; [left; exact Hh|].
+          assert (Ro2 : s_readonly s2 = true) by (destruct C02 as (_ & _ & _ & C4); congruence).
+          destruct (reach_ro_nw _ R2 Ro2) as [Hh|Hn]; [left; exact Hh | right; split; [split|]; assumption]. }
+        destruct (IH s2 R2 Pre2) as (k' & Rk & Sk & Qk). exists k'. split; [exact Rk|]. split; [exact Sk|].
+        destruct Qk as [Hk|(Hck & Nwk & Ck)]; [left; exact Hk|].
+        right. split; [exact Hck|]. split; [exact Nwk|]. eapply same_ctl_trans; eassumption.
+Qed.
+
+Lemma commit_state_reach : forall fuel s,
+  reach (s, []) -> halted s = false -> calm false s -> nwb (s_log s) = true -> s_phase s = AFTER ->
+  top_matches true false s = false ->
+  exists stk', reach (commit_state cfg fuel s, stk') /\ settled (commit_state cfg fuel s, stk')
+    /\ (halted (commit_state cfg fuel s) = true
+        \/ (calm false (commit_state cfg fuel s) /\ nwb (s_log (commit_state cfg fuel s)) = true
+            /\ s_phase (commit_state cfg fuel s) = AFTER /\ s_now (commit_state cfg fuel s) = s_now s)).
+Proof.
+  intros fuel s R H (Hr & Hro) Nw Ph Tm. unfold commit_state.
+  assert (R1 : reach (commit_begin s, [])) by (eapply TR_step; [exact R | apply TS_commit_begin; assumption]).
+  destruct (commit_resume_reach fuel (s_commitq s) (commit_begin s) R1) as (k & R2 & S2 & Q2);
+    [right; split; [split; [exact Hr | reflexivity] | exact Nw]|].
+  set (s3 := commit_resume cfg fuel (s_commitq s) (commit_begin s)) in *.
+  destruct (halted s3) eqn:H3.
+  - exists k. split; [exact R2|]. split; left; exact H3.
+  - destruct Q2 as [Hh|((Hr3 & Hro3) & Nw3 & (C1 & C2 & C3 & C4))]; [congruence|].
+    destruct S2 as [Hh|Hs]; [simpl in Hh; congruence | simpl in Hs; subst k].
+    exists []. split; [eapply TR_step; [exact R2 | apply TS_commit_end; assumption]|]. split; [right; reflexivity|].
+    right. unfold commit_end.
+    set (e := LCommit (s_now s3) (r_a (s_circ s3)) (r_a2 (s_circ s3)) (r_b (s_circ s3)) (c_out (s_circ s3))).
+    destruct (add_log_top e s3) as ((D1 & D2 & D3 & D4) & DE & DO & DR).
+    repeat split; simpl; try congruence.
+    + rewrite add_log_log. rewrite (halted_false_err s3 H3). exact Nw3.
+    + rewrite D2, C2. exact Ph.
+    + rewrite D1, C1. reflexivity.
+Qed.
+
+Definition rest_ok (s : state) : Prop :=
+  halted s = true \/ (calm false s /\ nwb (s_log s) = true /\ s_phase s = AFTER).
+
+Lemma handle_time_step_reach : forall fuel s,
+  reach (s, []) -> rest_ok s ->
+  exists stk', reach (handle_time_step cfg fuel s, stk') /\ settled (handle_time_step cfg fuel s, stk')
+    /\ rest_ok (handle_time_step cfg fuel s).
+Proof.
+  intros fuel s R Pre. unfold handle_time_step.
+  destruct (time_step_loop_reach fuel s R Pre) as (k & R1 & S1 & Q1).
+  set (s1 := time_step_loop cfg fuel s) in *.
+  destruct (halted s1) eqn:H1.
+  - exists k. split; [exact R1|]. split; left; exact H1.
+  - destruct Q1 as [Hh|(Hc & Nw & Ph & Tm & _)]; [congruence|].
+    destruct S1 as [Hh|Hs]; [simpl in Hh; congruence | simpl in Hs; subst k].
+    destruct (commit_state_reach fuel s1 R1 H1 Hc Nw Ph Tm) as (k' & R2 & S2 & Q2).
+    exists k'. split; [exact R2|]. split; [exact S2|].
+    destruct Q2 as [Hh|(Hc2 & Nw2 & Ph2 & _)]; [left; exact Hh | right; repeat split; try apply Hc2; assumption].
+Qed.
+
+Lemma advance_event_reach : forall fuel s,
+  reach (s, []) -> halted s = false -> rest_ok s ->
+  exists stk', reach (advance_event cfg fuel s, stk') /\ settled (advance_event cfg fuel s, stk')
+    /\ rest_ok (advance_event cfg fuel s).
+Proof.
+  intros fuel s R H Pre. unfold advance_event.
+  destruct (s_queue s) as [|e q] eqn:Q.
+  - exists []. split; [exact R|]. split; [right; reflexivity | exact Pre].
+  - destruct Pre as [Hh|((Hr & Hro) & Nw & Ph)]; [congruence|].
+    assert (R1 : reach (set_mt 0 (set_time (e_time e) s), []))
+      by (eapply TR_step; [exact R | eapply TS_set_time; eassumption]).
+    apply handle_time_step_reach; [exact R1|]. right. repeat split; assumption.
+Qed.
+
+Lemma advance_loop_reach : forall fuel target s,
+  reach (s, []) -> rest_ok s ->
+  exists stk', reach (advance_loop cfg fuel target s, stk').
+Proof.
+  induction fuel as [|n IH]; intros target s R Pre; simpl.
+  - destruct (halted s) eqn:H; [exists []; exact R|].
+    destruct Pre as [Hh|((Hr & Hro) & Nw & Ph)]; [congruence|].
+    destruct (clock_less (s_now s) target) eqn:Cl; [|exists []; exact R].
+    destruct (s_queue s) as [|e q] eqn:Q.
+    + exists []. eapply TR_step; [exact R|]. apply TS_set_target; try assumption. rewrite Q. exact I.
+    + destruct (clock_more (e_time e) target) eqn:Cm.
+      * exists []. eapply TR_step; [exact R|]. apply TS_set_target; try assumption. rewrite Q. exact Cm.
+      * exists []. eapply TR_step; [exact R | apply TS_oof].
+  - destruct (halted s) eqn:H; [exists []; exact R|].
+    destruct (clock_less (s_now s) target) eqn:Cl; [|exists []; exact R].
+    destruct (s_queue s) as [|e q] eqn:Q.
+    + destruct Pre as [Hh|((Hr & Hro) & Nw & Ph)]; [congruence|].
+      exists []. eapply TR_step; [exact R|]. apply TS_set_target; try assumption. rewrite Q. exact I.
+    + destruct (clock_more (e_time e) target) eqn:Cm.
+      * destruct Pre as [Hh|((Hr & Hro) & Nw & Ph)]; [congruence|].
+        exists []. eapply TR_step; [exact R|]. apply TS_set_target; try assumption. rewrite Q. exact Cm.
+      * destruct (advance_event_reach (S n) s R H Pre) as (k & R1 & S1 & Q1).
+        destruct S1 as [Hh|Hs]; [simpl in Hh | simpl in Hs; subst k].
+        -- rewrite advance_loop_halted by exact Hh. exists k. exact R1.
+        -- apply IH; assumption.
+Qed.
+
+Definition boot_ok (s : state) : Prop := halted s = true \/ (calm false s /\ s_phase s = AFTER).
+
+Lemma start_all_reach : forall fuel fb pids s,
+  reach (s, []) -> boot_ok s ->
+  exists stk', reach (start_all cfg fuel fb pids s, stk') /\ settled (start_all cfg fuel fb pids s, stk')
+    /\ boot_ok (start_all cfg fuel fb pids s).
+Proof.
+  induction pids as [|pid r IH]; intros s R Pre; simpl.
+  - exists []. split; [exact R|]. split; [right; reflexivity | exact Pre].
+  - destruct (halted s) eqn:H.
+    + exists []. split; [exact R|]. split; [left; exact H | left; exact H].
+    + destruct Pre as [Hh|((Hr & Hro) & Ph)]; [congruence|].
+      assert (Next : forall x k, reach (x, k) -> settled (x, k) -> (halted x = true \/ s_ready x = []) -> same_ctl s x ->
+                exists stk', reach (start_all cfg fuel fb r x, stk') /\ settled (start_all cfg fuel fb r x, stk')
+                  /\ boot_ok (start_all cfg fuel fb r x)).
+      { intros x k Rx Sx Qx (C1 & C2 & C3 & C4).
+        destruct Sx as [Hh|Hs]; [simpl in Hh | simpl in Hs; subst k].
+        - rewrite start_all_halted by exact Hh. exists k. split; [exact Rx|]. split; left; exact Hh.
+        - apply IH; [exact Rx|]. destruct Qx as [Hh|Hq]; [left; exact Hh | right; split; [split|]; congruence]. }
+      destruct fb.
+      * destruct (fiber_start pid s) as [fs s1] eqn:F.
+        assert (R1 : reach (s1, fs)) by (eapply TR_step; [exact R | eapply TS_fiber_start; eassumption]).
+        assert (C1 : same_ctl s s1).
+        { unfold fiber_start in F. pose proof (fiber_continue_ctl pid (log_proc pid AStart s)) as C. rewrite F in C.
+          eapply same_ctl_trans; [apply log_proc_ctl | exact C]. }
+        destruct (run_stack_reach fuel fs s1 R1) as (k1 & R2 & S2 & C2).
+        set (s2 := run_stack cfg fuel fs s1) in *.
+        destruct S2 as [Hh|Hs]; [simpl in Hh | simpl in Hs; subst k1].
+        -- rewrite run_ready_halted by exact Hh.
+           apply (Next s2 k1 R2); [left; exact Hh | left; exact Hh | eapply same_ctl_trans; eassumption].
+        -- destruct (run_ready_reach fuel s2 R2) as (k2 & R3 & S3 & Q3 & C3).
+           apply (Next _ k2 R3 S3 Q3). eapply same_ctl_trans; [exact C1|]. eapply same_ctl_trans; eassumption.
+      * unfold resume_now.
+        assert (R1 : reach (enqueue (TStart pid) s, [])) by (eapply TR_step; [exact R | apply TS_enq_start; assumption]).
+        destruct (run_ready_reach fuel _ R1) as (k2 & R3 & S3 & Q3 & C3).
+        apply (Next _ k2 R3 S3 Q3). eapply same_ctl_trans; [apply enqueue_ctl | exact C3].
+Qed.
+
 End Refine.
+
+(* ------------------------------------------------------------------------- *)
+(** * Every state the interpreter returns is reachable from the boot state *)
+
+Lemma boot_fields : forall cfg procs fiber tb,
+  halted (boot cfg procs fiber tb) = false /\ s_ready (boot cfg procs fiber tb) = []
+  /\ s_readonly (boot cfg procs fiber tb) = false /\ s_phase (boot cfg procs fiber tb) = AFTER.
+Proof.
+  intros. unfold boot. destruct (c_two cfg); repeat split.
+Qed.
+
+Theorem run_reachable : forall cfg procs fiber until tb fuel,
+  exists stk, treach cfg (boot cfg procs fiber tb, []) (run cfg procs fiber until tb fuel, stk).
+Proof.
+  intros cfg procs fiber until tb fuel.
+  set (c0 := (boot cfg procs fiber tb, @nil frame)).
+  destruct (boot_fields cfg procs fiber tb) as (B1 & B2 & B3 & B4).
+  assert (Hc0 : s_readonly (fst c0) = false) by exact B3.
+  unfold run, power_on.
+  destruct (start_all_reach cfg c0 fuel fiber (seq 0 (length procs)) (boot cfg procs fiber tb)) as (k & R1 & S1 & Q1);
+    [apply TR_init | right; split; [split|]; assumption|].
+  set (s4 := start_all cfg fuel fiber (seq 0 (length procs)) (boot cfg procs fiber tb)) in *.
+  destruct (halted s4) eqn:H4.
+  - rewrite advance_loop_halted by exact H4. exists k. exact R1.
+  - destruct Q1 as [Hh|((Hr & Hro) & Ph)]; [congruence|].
+    destruct S1 as [Hh|Hs]; [simpl in Hh; congruence | simpl in Hs; subst k].
+    assert (R2 : treach cfg c0 (reevaluate s4, [])) by (eapply TR_step; [exact R1 | apply TS_reeval; assumption]).
+    destruct (reevaluate_top s4) as ((C1 & C2 & C3 & C4) & E & O & Rd).
+    assert (Pre : rest_ok (reevaluate s4)).
+    { right. repeat split; try congruence. unfold reevaluate. rewrite add_log_log. simpl.
+      rewrite (halted_false_err s4 H4). reflexivity. }
+    destruct (handle_time_step_reach cfg c0 Hc0 fuel (reevaluate s4) R2 Pre) as (k' & R3 & S3 & Q3).
+    set (s6 := handle_time_step cfg fuel (reevaluate s4)) in *.
+    destruct S3 as [Hh|Hs]; [simpl in Hh | simpl in Hs; subst k'].
+    + rewrite advance_loop_halted by exact Hh. exists k'. exact R3.
+    + apply (advance_loop_reach cfg c0 Hc0); assumption.
+Qed.
